@@ -229,6 +229,10 @@ def StrEnc.rawBuffer (e : StrEnc) (p : Pkt) : Except Err (Bytes × Raw) :=
     | .error err => .error err
     | .ok (v, raw') => .ok (toBytesBE nbytes.toNat (v <<< pad.toNat), raw')
 
+/-- Code-unit width in bytes: 2 for the UTF-16 family, 4 for the UTF-32 family, else 1. -/
+def StrEnc.unitWidth (e : StrEnc) : Nat :=
+  if e.encoding.startsWith "UTF-16" then 2 else if e.encoding.startsWith "UTF-32" then 4 else 1
+
 /-- The Python codec used for decoding: `UTF-16` / `UTF-32` follow the declared byte order. -/
 def StrEnc.codec (e : StrEnc) : String :=
   if e.encoding == "UTF-16" || e.encoding == "UTF-32" then
@@ -253,7 +257,7 @@ def StrEnc.extractText (e : StrEnc) (buf : Bytes) : Except Err String :=
         | .ok (bs, _) => decodeOrErr e.codec bs
   else match e.termChar with
     | some t =>
-      match bytesIndex buf t with
+      match bytesIndex e.unitWidth buf t with
       | none => .error .value
       | some i =>
         match liftBit (readAsBytes ⟨buf, 0⟩ ((i : Int) * 8)) with
